@@ -1,7 +1,7 @@
-\* thorough, second config: snaps a, b (+ snapd) but up to 5 changes
+\* thorough, second config: snaps a, b (+ snapd) but up to 4 changes
 CONSTANTS
   Snaps <- MCSnaps2
-  MaxChanges = 5
+  MaxChanges = 4
 INIT Init
 NEXT Next
 CHECK_DEADLOCK FALSE
